@@ -69,7 +69,8 @@ def check_cone(mon, label, order, rng, fam):
         u = np.asarray(u, float)
         mon.event(h ^ (1000 + which), nontriv, f"ustar/{fam}")
         mon.count("ustar_events")
-        if u_or is None or d1_or - d1_lb > 1e-8 * (1 + d1_or) or feas < -1e-9:
+        gap = max(0.0, d1_or - d1_lb)
+        if u_or is None or gap > 1e-6 * (1 + d1_or) or feas < -1e-9:
             mon.count("oracle_wide")
             continue
         mon.stat_max("max_d1_relerr", abs(d1 - d1_or) / d1_or)
@@ -78,7 +79,7 @@ def check_cone(mon, label, order, rng, fam):
             mon.violation("ustar:not-unit", f"{label}: |u*|={np.linalg.norm(u)}", case)
         if (W @ u < -1e-9).any():
             mon.violation("ustar:outside-cone", f"{label}: W u* = {W @ u}", case)
-        if abs(d1 - d1_or) > TOL_D * (1 + d1_or):
+        if abs(d1 - d1_or) > TOL_D * (1 + d1_or) + gap:
             mon.violation("ustar:d1-wrong", f"{label}: d1={d1!r}, certified [{d1_lb!r},{d1_or!r}]", case)
         elif np.abs(u - u_or).max() > TOL_U:
             mon.violation("ustar:direction-wrong", f"{label}: u*={u}, oracle {u_or}", case)
